@@ -5,7 +5,7 @@
 
 package hmac
 
-//@ func Equal
+//@ func Equal(mac1, mac2)
 //@   safety C04 C07
 //@   props C04 C07
 //@   pure
@@ -43,7 +43,7 @@ package hmac
 // Keyed(h, key): the pads are those of RFC 2104 for this key
 //@ define Keyed(h, kind, key, B, hsz) = InnerStart(h) == hmac_ipadseq(kind, key, B, hsz) && OuterStart(h) == hmac_opadseq(kind, key, B, hsz)
 
-//@ func (*hmac).Write
+//@ func (*hmac).Write(h, p)
 //@   safety C18
 //@   props C18 C04
 //@   requires HmacOK(h)
@@ -51,13 +51,13 @@ package hmac
 //@   ensures result0 == len(p) && result1 == nil
 //@   ensures HState(h.inner) == old(seqapp(HState(h.inner), p))
 
-//@ func (*hmac).Size
+//@ func (*hmac).Size(h)
 //@   safety C18
 //@   props C18
 //@   pure
 //@   requires h != nil && h.outer != nil
 //@   ensures result == HSize(h.outer)
-//@ func (*hmac).BlockSize
+//@ func (*hmac).BlockSize(h)
 //@   safety C18
 //@   props C18
 //@   pure
@@ -65,7 +65,7 @@ package hmac
 //@   ensures result == HBlock(h.inner)
 
 // Sum: in ++ H(OuterStart || H(inner state)); the inner state (hence further Writes and Sums) is unaffected.
-//@ func (*hmac).Sum
+//@ func (*hmac).Sum(h, in)
 //@   safety C18
 //@   props C18 C04
 //@   requires HmacOK(h) && (region(in) != region(h.opad) && region(in) != region(h.ipad) || region(in) == 0)
@@ -78,7 +78,7 @@ package hmac
 
 // Reset: back to "just keyed" (the inner state is InnerStart again); the first Reset of a keyed object may
 // switch the representation of the pads to marshaled hash states, which must denote the same abstract states.
-//@ func (*hmac).Reset
+//@ func (*hmac).Reset(h)
 //@   safety C18
 //@   props C18
 //@   requires HmacOK(h) && (h.marshaled || len(h.ipad) == HBlock(h.inner) && len(h.opad) == HBlock(h.inner))
@@ -91,7 +91,7 @@ package hmac
 
 // resetTo(key): from ANY prior state of a recycled object (whatever key, pad length, marshaled flag it had),
 // the object becomes exactly "keyed with key, nothing written" per RFC 2104.
-//@ func (*hmac).resetTo
+//@ func (*hmac).resetTo(h, key)
 //@   safety C18
 //@   props C18 C04
 //@   requires h != nil && h.inner != nil && h.outer != nil && errval(h.inner) != errval(h.outer)
@@ -128,7 +128,7 @@ package hmac
 //@     invariant region(h.ipad) != region(h.opad) && forall(j, 0, len(h.ipad), h.ipad[j] == loopold(h.ipad[j]))
 //@     decreases len(h.opad) - rangeindex
 
-//@ func assertHMACSize
+//@ func assertHMACSize(h, size, blocksize)
 //@   safety C18 C04
 //@   props C18 C04
 //@   pure
@@ -157,7 +157,7 @@ package hmac
 //@   | && Keyed(h, kind, key, B, hsz) && HState(h.inner) == InnerStart(h)
 //@   | && (h.marshaled || len(h.ipad) == B && len(h.opad) == B)
 
-//@ func AcquireSHA1
+//@ func AcquireSHA1(key)
 //@   safety C18 C04
 //@   props C18 C04
 //@   assigns gmap(hstate)
@@ -165,7 +165,7 @@ package hmac
 //@   resulttype *hmac
 //@   ensures fresh(result) && Ready(result, 1, old(key), 64, 20) && (fresh(result.ipad) || region(result.ipad) == 0) && (fresh(result.opad) || region(result.opad) == 0)
 
-//@ func AcquireSHA256
+//@ func AcquireSHA256(key)
 //@   safety C18
 //@   props C18
 //@   assigns gmap(hstate)
@@ -173,12 +173,12 @@ package hmac
 //@   resulttype *hmac
 //@   ensures fresh(result) && Ready(result, 2, old(key), 64, 32) && (fresh(result.ipad) || region(result.ipad) == 0) && (fresh(result.opad) || region(result.opad) == 0)
 
-//@ func PutSHA1
+//@ func PutSHA1(h)
 //@   safety C18 C04
 //@   props C18 C04
 //@   pure
 //@   requires errtag(h) == typeid("*github.com/pion/stun/v3/internal/hmac.hmac") && PutOK(h, 20, 64)
-//@ func PutSHA256
+//@ func PutSHA256(h)
 //@   safety C18
 //@   props C18
 //@   pure
